@@ -3,7 +3,7 @@
 # (a scratch worktree); any VIOLATION here is a candidate FALSE ALARM of the machinery (or a bug of the refactoring).
 tree="$1"; cd "${VERIF_ROOT:-/verif}"
 export IXAI_REPO="$tree" VERIF_EVIDENCE_DIR="/tmp/evidence_probe_$$"
-for i in $(seq -w 1 20); do
+for i in ${CHECKS:-$(seq -w 1 20)}; do
   out=$(./check C$i --tier quick 2>&1); rc=$?
   echo "C$i rc=$rc $(echo "$out" | grep -E '^C[0-9]+ ' | tail -1 | cut -c1-100)"
   [ $rc -ne 0 ] && echo "$out" | grep -E -A2 "VIOLATION|HARNESS" | cut -c1-600 | head -12
